@@ -93,6 +93,30 @@ def special_packets(rnd):
             c, _ = P.coap(rnd)
             u = P.udp(rnd, c, csum=(lambda x: P.udp_checksum_v6(src, dst, x)) if v6 else (lambda x: P.udp_checksum_v4(src, dst, x)))
             out.append(('IPv6-UDP-CoAP' if v6 else 'IPv4-UDP-CoAP', P.ipv6(rnd, u, nh, src, dst) if v6 else P.ipv4(rnd, u, nh, src, dst)))
+    # SCTP carried in UDP (port 132, the predictive stacks): the UDP checksum covers the SCTP packet with ITS checksum in place
+    for v6 in (True, False, True, False):
+        src, dst = (rnd.randbytes(16), rnd.randbytes(16)) if v6 else (rnd.randbytes(4), rnd.randbytes(4))
+        s_, _ = P.sctp(rnd)
+        u = P.udp(rnd, s_, csum=(lambda x: P.udp_checksum_v6(src, dst, x)) if v6 else (lambda x: P.udp_checksum_v4(src, dst, x)), dport=132)
+        out.append(('IPv6' if v6 else 'IPv4', P.ipv6(rnd, u, 17, src, dst) if v6 else P.ipv4(rnd, u, 17, src, dst)))
+    # addresses made of 0xFFFF words (the plain sum of the pseudo-header alone carries more than once), the last payload word solved so that
+    # the checksum lands on 0xFFFE, 0xFFFF (sent for 0), 0x0001, 0x0000-neighbours: totals of exactly 0x1FFFF and around
+    for v6 in (True, False):
+        for target in (0xfffe, 0x0000, 0x0001, 0xfffd, 0x7fff):
+            src = (bytes.fromhex('20010db8') + b'\xff' * 10 + rnd.randbytes(2)) if v6 else b'\xff\xff' + rnd.randbytes(2)
+            dst = (bytes.fromhex('20010db8') + b'\xff' * 12) if v6 else b'\xff\xff\xff\xfe'
+            body = bytes([0x40, 1, 0, 1, 0xff]) + rnd.randbytes(rnd.choice([1, 3])) + b'\0\0'
+            f = (lambda x, a=src, d_=dst: P.udp_checksum_v6(a, d_, x)) if v6 else (lambda x, a=src, d_=dst: P.udp_checksum_v4(a, d_, x))
+            u0 = P.udp(rnd, body, csum=None, dport=5683)
+            raw = P.csum16((src + dst + (struct.pack('!IHBB', len(u0), 0, 0, 17) if v6 else struct.pack('!BBH', 0, 17, len(u0)))) + u0)
+            s = (~raw) & 0xffff
+            w = (((~target) & 0xffff) - s) % 0xffff
+            for ww in (w, w or 0xffff):
+                body2 = body[:-2] + struct.pack('!H', ww)
+                u = P.udp(rnd, body2, csum=f, sport=struct.unpack('!H', u0[:2])[0], dport=5683)
+                if struct.unpack('!H', u[6:8])[0] == (target or 0xffff):
+                    out.append(('IPv6-UDP-CoAP' if v6 else 'IPv4-UDP-CoAP', (P.ipv6(rnd, u, 17, src, dst) if v6 else P.ipv4(rnd, u, 17, src, dst))))
+                    break
     return out
 
 
